@@ -81,7 +81,7 @@ func genHistModes(t *rapid.T, modes []string, deep bool) CaseHist {
 		cfg.MaxNodes = 8
 	}
 	var c CaseHist
-	if deep && rapid.IntRange(0, 9).Draw(t, "deepLoop") == 0 {
+	if deep && rapid.IntRange(0, 5).Draw(t, "deepLoop") == 0 {
 		// directed: three graph levels; the middle graph loops through the innermost graph node, and the
 		// innermost graph (stateful or not) is interrupted inside
 		inner := &gkit.Spec{Mode: "pregel", In: "S", Out: "S", State: rapid.Bool().Draw(t, "innerState"),
